@@ -120,7 +120,9 @@ def entries : List Entry := [
           | some bs => okHex bs
           | none => match Manticore.Spec.Cifs.encodeLists c env' with   -- list fields: concatenation of the elements
             | some bs => okHex bs
-            | none => "*") ++ (if key.isEmpty then "" else " #" ++ key))
+            | none => match Manticore.Spec.Cifs.encodeOptional c env' with   -- one optional trailing parameter field
+              | some bs => okHex bs
+              | none => "*") ++ (if key.isEmpty then "" else " #" ++ key))
       | _ => none },
   -- C05, header: the 32 bytes MS-CIFS 2.2.3.1 prescribes (Protocol 0-3, Command 4, Status 5-8, Flags 9, Flags2 10-11,
   -- PIDHigh 12-13, SecurityFeatures 14-21, Reserved 22-23, TID 24-25, PIDLow 26-27, UID 28-29, MID 30-31; little-endian)
